@@ -22,7 +22,7 @@
    neither here (we work on bytes), so UTF-8 text is lexed alike. *)
 From Coq Require Import List ZArith NArith String Ascii Decimal DecimalString.
 Import ListNotations.
-Open Scope string_scope.
+Local Open Scope string_scope.
 
 Inductive token :=
 | THeader (nodes edges variables : N)
